@@ -18,6 +18,7 @@ RULE = ("(a) schedule enumeration with an O(1) stub learner named like the real 
 ASSUMPTIONS = [
     "(n, rhomax) whose real-valued N is within 1e-9 of an integer are skipped as ambiguous and counted",
     "budgets with floor(n/2N) == 0 are a known finding of C01 and are not judged",
+    "the base learners of a wrapper work on the search space the wrapper was given: their partition is an instance of the partition class passed to the wrapper and has the wrapper's domain (C10 likewise)",
     "the schedule is enumerated completely over the stated (n, rhomax) grid; reward histories are sampled",
 ]
 FLOOR = {"gpo_rounds_checked": {"quick": 600000, "thorough": 4800000},
